@@ -5,6 +5,7 @@ import (
 	"fmt"
 
 	"verifsim/simnet"
+	"verifsim/simrt"
 )
 
 // Mallory: a frame-aware man in the middle on top of simnet's chunk hook. Chunks are arbitrary
@@ -36,10 +37,11 @@ const (
 	edReplay    // frame replaced by the same frame recorded from an earlier session
 	edReplayDir // every handshake frame of the direction replaced by the recorded ones
 	edSubst     // multistream: line replaced by another well-formed line
+	edCut       // the head of the frame is delivered, then the connection is torn down
 	nEdKinds
 )
 
-var edNames = [nEdKinds]string{"none", "flip", "trunc-fix", "trunc-raw", "extend-fix", "extend-raw", "drop", "dup", "swap", "reroute", "replay", "replay-dir", "subst"}
+var edNames = [nEdKinds]string{"none", "flip", "trunc-fix", "trunc-raw", "extend-fix", "extend-raw", "drop", "dup", "swap", "reroute", "replay", "replay-dir", "subst", "cut"}
 
 type edit struct {
 	kind   int
@@ -64,7 +66,7 @@ func (e edit) String() string {
 	switch e.kind {
 	case edFlip:
 		s += fmt.Sprintf(" pos-draw=%d mask=%02x", e.pos, e.mask)
-	case edTruncFix, edTruncRaw, edExtendFix, edExtendRaw:
+	case edTruncFix, edTruncRaw, edExtendFix, edExtendRaw, edCut:
 		s += fmt.Sprintf(" amount-draw=%d", e.k)
 	case edSubst:
 		s += fmt.Sprintf(" with %q", e.subst)
@@ -98,6 +100,7 @@ type mitm struct {
 	other   *mitm           // second session (swap / reroute)
 	replay  [2][][]byte     // frames recorded from an earlier session
 	rec     [2][][]byte     // handshake frames seen in this session (originals)
+	swapIn  []byte          // the other session's frame, waiting for ours to be sent
 	fired   bool
 	note    string // what exactly was done (lengths may depend on crypto randomness: trace only, never signature)
 	trouble string
@@ -163,7 +166,7 @@ func (m *mitm) nextFrame(b []byte) int {
 		if len(b) < n {
 			return 0
 		}
-		if b[n-1] != '\n' {
+		if b[n-1] != '\n' || (b[k] != '/' && string(b[k:n]) != "na\n") {
 			return -1
 		}
 		return n
@@ -192,12 +195,20 @@ func (m *mitm) hook(toDialer bool, chunk []byte) []byte {
 			chunk = chunk[n:]
 			if ds.seen == r.off+r.n {
 				// a frame Mallory injected herself (it came from the other session) is complete
-				out = append(out, r.got...)
+				got := r.got
 				ds.inj = ds.inj[1:]
-				if ds.holding {
+				switch {
+				case m.ed.kind != edSwap:
+					out = append(out, got...)
+				case ds.holding:
+					// our own frame was already given away: the replacement takes its place, then what queued up behind
 					ds.holding = false
+					out = append(out, got...)
 					out = append(out, ds.queue...)
 					ds.queue = nil
+				default:
+					// our own frame has not been sent yet: keep the replacement until it is
+					m.swapIn = got
 				}
 			}
 			continue
@@ -261,6 +272,21 @@ func (m *mitm) inject(dir int, b []byte) bool {
 
 func (m *mitm) onFrame(dir int, f []byte) []byte {
 	ds := &m.d[dir]
+	e := m.ed
+	if e.kind == edReroute {
+		if m.other == nil {
+			m.trouble = "reroute without a second session"
+			return m.emit(dir, f)
+		}
+		if len(m.rec[dir]) < 8 {
+			m.rec[dir] = append(m.rec[dir], f)
+		}
+		if m.other.inject(dir, f) {
+			m.fired = true
+			m.note = "every frame delivered to session " + m.other.name
+		}
+		return nil
+	}
 	if m.framing == frTLS && f[0] == 20 {
 		// dummy ChangeCipherSpec: ignored by TLS 1.3, not handshake data (never edited, never counted)
 		return m.emit(dir, f)
@@ -269,17 +295,6 @@ func (m *mitm) onFrame(dir int, f []byte) []byte {
 	ds.idx++
 	if len(m.rec[dir]) < 8 {
 		m.rec[dir] = append(m.rec[dir], f)
-	}
-	e := m.ed
-	if e.kind == edReroute {
-		if m.other == nil {
-			m.trouble = "reroute without a second session"
-			return m.emit(dir, f)
-		}
-		if m.other.inject(dir, f) {
-			m.fired = true
-		}
-		return nil
 	}
 	if e.kind == edReplayDir && dir == e.dir {
 		if idx < len(m.replay[dir]) {
@@ -302,6 +317,12 @@ func (m *mitm) onFrame(dir int, f []byte) []byte {
 		m.note = fmt.Sprintf("gave frame (%d bytes) to session %s", len(f), m.other.name)
 		if !m.other.inject(dir, f) {
 			m.note += " (its sender had already closed: dropped there)"
+		}
+		if m.swapIn != nil {
+			rep := m.swapIn
+			m.swapIn = nil
+			m.note += fmt.Sprintf(" and delivered that session's frame (%d bytes) in its place", len(rep))
+			return m.emit(dir, rep)
 		}
 		// what follows in this direction waits for the replacement coming from the other session
 		ds.holding = true
@@ -351,6 +372,21 @@ func (m *mitm) split(f []byte) (hdr int, body []byte) {
 	return h, f[h:]
 }
 
+// amount is the number of body bytes a truncation removes: 1..len(body) when the frame's length is a
+// function of the tape, 1..16 otherwise — how many bytes are missing decides whether the receiver
+// stalls or swallows what follows, which must not depend on a random length.
+func (m *mitm) amount(bodyLen, idx int) int {
+	det := !m.ed.varLen || (m.framing == frTLS && idx == 0) // ClientHello / ServerHello have a fixed layout
+	if det {
+		return 1 + m.ed.k%bodyLen
+	}
+	n := 1 + m.ed.k%16
+	if n > bodyLen {
+		n = bodyLen
+	}
+	return n
+}
+
 // apply performs the single-frame edits. It returns the bytes to forward and a description; an
 // empty description means the edit was not applicable (nothing fired).
 func (m *mitm) apply(f []byte, idx int) ([]byte, string) {
@@ -363,7 +399,7 @@ func (m *mitm) apply(f []byte, idx int) ([]byte, string) {
 		if len(body) == 0 {
 			return nil, ""
 		}
-		n := 1 + e.k%len(body)
+		n := m.amount(len(body), idx)
 		g := append([]byte(nil), f[:len(f)-n]...)
 		g = m.setLen(g, len(body)-n)
 		return g, fmt.Sprintf("cut %d of %d body bytes, length field corrected", n, len(body))
@@ -371,8 +407,18 @@ func (m *mitm) apply(f []byte, idx int) ([]byte, string) {
 		if len(body) == 0 {
 			return nil, ""
 		}
-		n := 1 + e.k%len(body)
+		n := m.amount(len(body), idx)
 		return append([]byte(nil), f[:len(f)-n]...), fmt.Sprintf("cut %d of %d body bytes, length field untouched", n, len(body))
+	case edCut:
+		if len(body) == 0 {
+			return nil, ""
+		}
+		n := m.amount(len(body), idx)
+		// the sender's endpoint is closed by a task of its own (the hook runs under the connection's lock):
+		// the receiver sees the head of the frame, then EOF
+		c := m.send[e.dir]
+		simrt.GoNamed("cut", func() { c.Close() })
+		return append([]byte(nil), f[:len(f)-n]...), fmt.Sprintf("delivered all but the last %d of %d body bytes, then closed the connection", n, len(body))
 	case edExtendFix:
 		n := 1 + e.k%len(junk)
 		g := append(append([]byte(nil), f...), junk[:n]...)
@@ -404,7 +450,7 @@ func (m *mitm) apply(f []byte, idx int) ([]byte, string) {
 // which byte is hit must not decide the shape of the run, otherwise runs would not replay. The
 // position draw therefore selects header or body first; body bytes (AEAD ciphertext, or the fixed
 // layout of ClientHello/ServerHello) are XORed at offset draw%bodyLen; the length field is changed
-// by +-1..3 or +-256 instead of XORed (an XOR would make the record longer or shorter depending on
+// by +-1..3, +256 or halved instead of XORed (an XOR would make the record longer or shorter depending on
 // the random length). TLS: the two legacy-version bytes of the first record of each direction are
 // excluded — crypto/tls accepts any value below 0x1000 there before a version is negotiated, TLS 1.3
 // leaves them unauthenticated (RFC 8446 5.1), so changing them is not an alteration of handshake data.
@@ -439,7 +485,7 @@ func (m *mitm) flip(f []byte, idx int) ([]byte, string) {
 		case 2:
 			nl = cur + 256
 		default:
-			nl = cur - 256
+			nl = cur / 2
 		}
 		if nl < 0 {
 			nl = 0
